@@ -218,6 +218,10 @@ pub enum Op {
     /// EventLoop::run(timeout, ..) whose per-iteration closure requests a stop after `iters`
     /// iterations (top level only)
     Run { timeout: Timeout, iters: u32 },
+    /// like TrRemove / TrReplace, but the re-registration is left to a later operation on the
+    /// parent (update, disable, remove ...)
+    TrRemoveLazy(Id),
+    TrReplaceLazy(Id, ChildSpec),
 }
 
 pub const INTEREST_NAMES: [&str; 4] = ["EMPTY", "READ", "WRITE", "BOTH"];
@@ -336,6 +340,8 @@ impl Op {
             Op::SlotChurn(_) => "SlotChurn",
             Op::ScheduleTimeout { .. } => "ScheduleTimeout",
             Op::Run { .. } => "Run",
+            Op::TrRemoveLazy(_) => "TrRemoveLazy",
+            Op::TrReplaceLazy(..) => "TrReplaceLazy",
         }
     }
 }
